@@ -653,7 +653,9 @@ int cs_main(int argc, char **argv, const char *property, cs_scenario_t *scenario
         if (s != ST_OK && s != ST_KNOWN) { printf("VIOLATION property=%s replay=%s\n", property, replay); return 1; }
         return 0;
     }
-    if (deadline > 0) g_deadline = now_s() + deadline;
+    double t_end = deadline > 0 ? now_s() + deadline : 0;
+    int nsel = 0;
+    for (int k = 0; k < nscen; k++) if (!(only && strcmp(only, "all") && strcmp(only, scenarios[k].name))) nsel++;
     FILE *jf = json ? fopen(json, "w") : fopen("/dev/null", "w");
     if (!jf) { perror(json); return 2; }
     fprintf(jf, "{\"engine\":\"cosched\",\"property\":\"%s\",\"scenarios\":[\n", property);
@@ -661,6 +663,9 @@ int cs_main(int argc, char **argv, const char *property, cs_scenario_t *scenario
     for (int k = 0; k < nscen; k++) {
         if (only && strcmp(only, "all") && strcmp(only, scenarios[k].name)) continue;
         stats_t st;
+        /* each scenario gets an equal share of the time that is left */
+        if (t_end > 0) { double left = t_end - now_s(); if (left < 1) left = 1; g_deadline = now_s() + left / (nsel > 0 ? nsel : 1); }
+        nsel--;
         if (!first) fprintf(jf, ",\n");
         first = 0;
         int r = explore(&scenarios[k], bound, &st, jf);
